@@ -11,6 +11,7 @@
   state across executions is the regenerated fact `Gen.execWrites = []`.
 -/
 import Pongo.Model.Exec
+import Pongo.Lemmas.FuelAll
 import Pongo.Gen.Effects
 
 namespace Pongo.C04
@@ -98,6 +99,55 @@ theorem exec_leaves_no_state_behind (fuel ti : Nat) (ctx : Env) (σ : ES) :
       | none =>
         simp only [modify, modifyGet, MonadStateOf.modifyGet, EStateM.modifyGet]
         exact restore_pattern _ σ.cycle σ.changedV σ.changedC _
+
+/-! ### one semantics, whatever the fuel
+
+The interpreter is written with a fuel argument (the recursion bound Lean needs); every theorem
+about it is stated for any fuel.  The two theorems below say that the fuel is not part of the
+meaning: an answer other than "ran out of fuel" — output, error and final state — is the answer for
+every larger fuel.  `CompileMono` (the same statement for the compiler, which a computed
+`include` calls at execution time) is its only premise. -/
+
+/-- **More fuel never changes an answer** (one step). -/
+theorem more_fuel_same_answer (hP : CompileMono T cfg) (fuel ti : Nat) (ctx : Env) (σ : ES)
+    (h : NotDiv ((executeTpl T cfg g fuel ti ctx).run σ)) :
+    (executeTpl T cfg g (fuel + 1) ti ctx).run σ = (executeTpl T cfg g fuel ti ctx).run σ := by
+  have := (allLe T cfg g hP fuel).executeTpl ti ctx
+  unfold Le at this
+  exact this σ h
+
+/-- **… for every larger fuel**, for whole executions, single nodes and expressions. -/
+theorem answer_is_fuel_independent (hP : CompileMono T cfg) (n m : Nat) (hnm : n ≤ m) (ti : Nat) (ctx : Env) (σ : ES)
+    (h : NotDiv ((executeTpl T cfg g n ti ctx).run σ)) :
+    (executeTpl T cfg g m ti ctx).run σ = (executeTpl T cfg g n ti ctx).run σ := by
+  induction m with
+  | zero => cases Nat.le_zero.mp hnm; rfl
+  | succ k ih =>
+    by_cases hk : n ≤ k
+    · have e := ih hk
+      rw [← e] at h
+      rw [more_fuel_same_answer T cfg g hP k ti ctx σ h, e]
+    · have : n = k + 1 := by omega
+      subst this; rfl
+
+theorem node_answer_is_fuel_independent (hP : CompileMono T cfg) (fuel : Nat) (nd : Node) (σ : ES)
+    (h : NotDiv ((execNode T cfg g fuel nd).run σ)) :
+    (execNode T cfg g (fuel + 1) nd).run σ = (execNode T cfg g fuel nd).run σ := by
+  have := (allLe T cfg g hP fuel).execNode nd
+  unfold Le at this
+  exact this σ h
+
+theorem expression_answer_is_fuel_independent (hP : CompileMono T cfg) (fuel : Nat) (e : Expr) (σ : ES)
+    (h : NotDiv ((eval T cfg g fuel e).run σ)) :
+    (eval T cfg g (fuel + 1) e).run σ = (eval T cfg g fuel e).run σ := by
+  have := (allLe T cfg g hP fuel).eval e
+  unfold Le at this
+  exact this σ h
+
+/-- non-vacuity: running out of fuel is the only answer that more fuel changes — with no fuel at
+    all the answer *is* "diverge", and it is excluded by `NotDiv` -/
+example (ti : Nat) (ctx : Env) (σ : ES) : ¬ NotDiv ((executeTpl T cfg g 0 ti ctx).run σ) := by
+  simp [executeTpl, xerr, EStateM.run, throw, throwThe, MonadExceptOf.throw, EStateM.throw, NotDiv]
 
 /-- no store reachable from an execution entry point targets the compiled
     template, the set, a package variable or the caller's context -/
